@@ -4,7 +4,7 @@
    *generated* guards, so that a changed guard in the source changes the obligation.
    Main result: every block-layer function of the model, hence document.render,
    preserves every P with [frame_ok P]. *)
-From Rimu Require Import Base Regex RegexParse Str Types Tables Guards State Inline Block.
+From Rimu Require Import Base Regex RegexParse Str Types Tables Guards State Inline Block LowerCase.
 From Coq Require Import Lia.
 Local Open Scope monad_scope.
 
@@ -73,7 +73,7 @@ Record frame_ok (P : session -> Prop) : Prop := {
   fo_attrs : forall s v, P s -> attrs_allowed (s_mode s) = true -> P (set_attrs s v);
   fo_popts : forall s v, P s -> P (set_popts s v);
   fo_listids : forall s v, P s -> P (set_listids s v);
-  fo_ids_cons : forall s id, P s -> mem id (s_ids s) = false -> P (set_ids s (id :: s_ids s));
+  fo_ids_cons : forall s id, P s -> mem id (s_ids s) = false -> lower id = id -> P (set_ids s (id :: s_ids s));
   fo_closeRe : forall s i rx, P s -> P (set_closeRe i rx s);
   fo_macros : forall s v, P s -> setValue_skip (s_mode s) = false -> P (set_macros s v);
   fo_quotes : forall s v, P s -> quoteDefFilter_skip (s_mode s) = false -> P (set_quotes s v);
